@@ -5,7 +5,52 @@ use crate::out;
 use multiboot2_common::test_utils::DummyTestHeader;
 use multiboot2_common::{BytesRef, DynSizedStructure, Header};
 use serde_json::{json, Value};
-use std::mem::size_of_val;
+use std::mem::{size_of, size_of_val};
+
+/// Headers a user of the generic functions may define: sizes that are not a multiple of 8.
+/// Like the crates' own tag headers they refuse (by a panic) a stored size below the header size.
+#[derive(Clone, Copy, Debug, PartialEq, Eq)]
+#[repr(C)]
+pub struct Hdr12 {
+    typ: u32,
+    size: u32,
+    extra: u32,
+}
+impl Hdr12 {
+    #[allow(dead_code)]
+    pub fn new(typ: u32) -> Self {
+        Hdr12 { typ, size: 0, extra: 0xeedd_ccbb }
+    }
+}
+impl Header for Hdr12 {
+    fn payload_len(&self) -> usize {
+        assert!(self.size as usize >= size_of::<Self>());
+        self.size as usize - size_of::<Self>()
+    }
+    fn set_size(&mut self, total_size: usize) {
+        self.size = total_size as u32;
+    }
+}
+#[derive(Clone, Copy, Debug, PartialEq, Eq)]
+#[repr(C)]
+pub struct Hdr4 {
+    size: u32,
+}
+impl Hdr4 {
+    #[allow(dead_code)]
+    pub fn new() -> Self {
+        Hdr4 { size: 0 }
+    }
+}
+impl Header for Hdr4 {
+    fn payload_len(&self) -> usize {
+        assert!(self.size as usize >= size_of::<Self>());
+        self.size as usize - size_of::<Self>()
+    }
+    fn set_size(&mut self, total_size: usize) {
+        self.size = total_size as u32;
+    }
+}
 
 pub fn dispatch(ctx: &mut Ctx, op: &str, call: &Value) -> Option<Value> {
     Some(match op {
@@ -15,6 +60,19 @@ pub fn dispatch(ctx: &mut Ctx, op: &str, call: &Value) -> Option<Value> {
             "mb" => ref_from_slice::<multiboot2_header::Multiboot2BasicHeader>(ctx),
             "htag" => ref_from_slice::<multiboot2_header::HeaderTagHeader>(ctx),
             "dummy" => ref_from_slice::<DummyTestHeader>(ctx),
+            "h12" => ref_from_slice::<Hdr12>(ctx),
+            "h4" => ref_from_slice::<Hdr4>(ctx),
+            _ => out::unsupported(),
+        },
+        // the two public steps separately: BytesRef::try_from, then DynSizedStructure::ref_from_bytes
+        "ref_from_bytes" => match out::arg_str(call, "h") {
+            "bi" => ref_from_bytes::<multiboot2::BootInformationHeader>(ctx),
+            "tag" => ref_from_bytes::<multiboot2::TagHeader>(ctx),
+            "mb" => ref_from_bytes::<multiboot2_header::Multiboot2BasicHeader>(ctx),
+            "htag" => ref_from_bytes::<multiboot2_header::HeaderTagHeader>(ctx),
+            "dummy" => ref_from_bytes::<DummyTestHeader>(ctx),
+            "h12" => ref_from_bytes::<Hdr12>(ctx),
+            "h4" => ref_from_bytes::<Hdr4>(ctx),
             _ => out::unsupported(),
         },
         "bytes_ref" => match out::arg_str(call, "h") {
@@ -23,6 +81,8 @@ pub fn dispatch(ctx: &mut Ctx, op: &str, call: &Value) -> Option<Value> {
             "mb" => bytes_ref::<multiboot2_header::Multiboot2BasicHeader>(ctx),
             "htag" => bytes_ref::<multiboot2_header::HeaderTagHeader>(ctx),
             "dummy" => bytes_ref::<DummyTestHeader>(ctx),
+            "h12" => bytes_ref::<Hdr12>(ctx),
+            "h4" => bytes_ref::<Hdr4>(ctx),
             _ => out::unsupported(),
         },
         // clone_dyn of the structure that ref_from_slice yields for the image (C16: cloning is the identity)
@@ -32,6 +92,8 @@ pub fn dispatch(ctx: &mut Ctx, op: &str, call: &Value) -> Option<Value> {
             "tag" => clone_ref::<multiboot2::TagHeader>(ctx),
             "htag" => clone_ref::<multiboot2_header::HeaderTagHeader>(ctx),
             "dummy" => clone_ref::<DummyTestHeader>(ctx),
+            "h12" => clone_ref::<Hdr12>(ctx),
+            "h4" => clone_ref::<Hdr4>(ctx),
             _ => out::unsupported(),
         },
         "round8" => {
@@ -56,6 +118,16 @@ fn ref_from_slice<H: Header + 'static>(ctx: &Ctx) -> Value {
     match DynSizedStructure::<H>::ref_from_slice(ctx.slice()) {
         Ok(r) => out::ok(dyn_ref_json(ctx, r)),
         Err(e) => out::err(&format!("{e:?}")),
+    }
+}
+
+fn ref_from_bytes<H: Header + 'static>(ctx: &Ctx) -> Value {
+    match BytesRef::<H>::try_from(ctx.slice()) {
+        Err(e) => out::err(&format!("{e:?}")),
+        Ok(b) => match DynSizedStructure::<H>::ref_from_bytes(b) {
+            Ok(r) => out::ok(dyn_ref_json(ctx, r)),
+            Err(e) => out::err(&format!("{e:?}")),
+        },
     }
 }
 
